@@ -360,6 +360,9 @@ func main() {
 	var jobs []job
 	handlerDecls := 0
 	for _, d := range decls {
+		if altField(d) != "" {
+			jobs = append(jobs, job{"structalt", d}) // struct target whose field has the plain Go type ([]byte, string)
+		}
 		for _, l := range levels {
 			if l == "handler" && !thorough && !quickHandlerSlice(d) {
 				continue
